@@ -1423,6 +1423,11 @@ func loadViewFromJsonLinesFile(ctx context.Context, flags *option.Flags, fp *fil
 				break
 			}
 
+			if row == nil {
+				// a blank line (csvq itself ends a JSON Lines file with one) is not a record
+				continue
+			}
+
 			rowObj, ok := row.(txjson.Object)
 			if !ok {
 				err = NewJsonLinesStructureError(expr)
